@@ -190,11 +190,33 @@ def write_p8(regions, code, version=33, label=None, final_newline=True, order=No
         # (the first sfx pattern is never dropped: what an absent pattern 0 means is not something the format description settles)
         while len(rows) > (2 if name == 'sfx' else 1) and rows[-1] == TRIM_DEFAULT_ROW[name]:
             rows.pop()
+    prev = None
     for name in (order or ('lua', 'gfx', 'label', 'gff', 'map', 'sfx', 'music')):
         if name in parts and name not in omit:
-            out.extend(parts[name])
-    out.append(b'\n')
+            if name == 'gff' and prev == 'lua':
+                # (the blank line PICO-8 leaves before __gff__ would become a line of the code)
+                out.append(b'__gff__\n')
+                out.extend(parts[name][1:])
+            else:
+                out.extend(parts[name])
+            prev = name
+    if prev != 'lua':
+        out.append(b'\n')      # (PICO-8 ends the file with an empty line; after the Lua section it would be a line of the code)
     return b''.join(out)
+
+
+def write_p8_variant(rng, regions, code, version=33, label='random'):
+    """The same cart as write_p8 would write, in one of the file shapes the format allows: sections in another order, sections without
+    their trailing default rows, with / without / with an all-black label.  The memory the file encodes is the same in every shape."""
+    order = None
+    if rng.random() < 0.5:
+        order = ['lua', 'gfx', 'label', 'gff', 'map', 'sfx', 'music']
+        rng.shuffle(order)
+    trim = tuple(n for n in ('gfx', 'gff', 'map', 'sfx', 'music') if rng.random() < 0.5)
+    if label == 'random':
+        r = rng.random()
+        label = None if r < 0.5 else bytes(8192) if r < 0.65 else bytes(rng.getrandbits(8) for _ in range(128)) * 64
+    return write_p8(regions, code, version=version, label=label, order=order, trim=trim)
 
 
 class FormatError(Exception):
